@@ -389,7 +389,11 @@ static void scenario(const vh::Json& sc, vh::Out& out, vh::Rng& rng, const vh::A
     out.begin(cfg);
     std::unique_ptr<PDU> o; std::vector<Bytes> gb, ga; Bytes hb, ha; long logged = 0; size_t phase = rng.below((uint32_t)sample);
     for (size_t i = 0; i < vals.size(); ++i) {
-        if (i % 4 == 0 || !o) { o.reset(c->make()); randomise(*c, *o, rng, f); gb.clear(); for (size_t k = 0; k < c->fields.size(); ++k) gb.push_back(get_value(c->fields[k], *o));
+        if (i % 4 == 0 || !o) { o.reset(c->make());
+            // half of the objects carry a payload of their own: what serialisation derives from it (lengths, checksums, tags) is marked
+            // derived in the tables, everything else must stay what the setters stored
+            if (!o->inner_pdu() && rng.coin()) { std::string pl((size_t)rng.range(1, 150), 'p'); o->inner_pdu(RawPDU(pl)); }
+            randomise(*c, *o, rng, f); gb.clear(); for (size_t k = 0; k < c->fields.size(); ++k) gb.push_back(get_value(c->fields[k], *o));
             std::string err; hb = header_bytes(*c, *o, hdr, err); }
         std::string what, err; bool ok = call_setter(*f, *o, vals[i], what);
         ga.clear(); for (size_t k = 0; k < c->fields.size(); ++k) ga.push_back(get_value(c->fields[k], *o));
